@@ -27,7 +27,7 @@ d, prop, suite, rc1, rc0 = sys.argv[1:6]
 notes = open(d + "/notes.md").read() if __import__("os").path.exists(d + "/notes.md") else ""
 json.dump({"property": prop, "needs_to_manifest": notes.strip()[:1200],
            "confirmed": {"suite_with_change": suite, "demo_exit_with_change": int(rc1), "demo_exit_without_change": int(rc0),
-                         "how": "harness/seedkeep.sh: pytest in the scratch worktree with the change; demo.py with QA_LIB=<worktree> with the change and after git stash"},
+                         "how": "harness/seedkeep.sh: pytest in the scratch worktree with the change; demo.py with QA_LIB=<worktree> with the change and after git apply -R"},
            "detected_by": []}, open(d + "/meta.json", "w"), indent=1)
 PY
 echo "KEPT $D"
